@@ -93,3 +93,16 @@ Theorem C07_string_builder_example :
     = Some [91;57;48;49;93;32;85;32;91;57;48;50;93]%N.
 Proof. exact string_builder_example. Qed.
 Print Assumptions C07_string_builder_example.
+
+(* ---- the collected expression and the grouping inside a run (what C01 leaves open): regrouping (x op y) op z as x op (y op z), op one of U / O / X, leaves
+   the reading's value under every truth assignment unchanged, and the reading is absent in the one iff in the other *)
+From Ahb Require Import Proofs.C07_runs.
+Theorem C07_collected_value_invariant_under_regrouping : forall a beta b x y z, b <> BThen ->
+  rdval beta (rd a (EBin b (EBin b x y) z)) = rdval beta (rd a (EBin b x (EBin b y z))).
+Proof. exact rd_rotation. Qed.
+Print Assumptions C07_collected_value_invariant_under_regrouping.
+
+Theorem C07_collected_presence_invariant_under_regrouping : forall a b x y z, b <> BThen ->
+  (rd a (EBin b (EBin b x y) z) = None <-> rd a (EBin b x (EBin b y z)) = None).
+Proof. exact rd_rotation_presence. Qed.
+Print Assumptions C07_collected_presence_invariant_under_regrouping.
